@@ -182,7 +182,7 @@ GROWTH = {
 }
 
 LOOPS = {
-    "multistream_select::protocol::Message::decode": {"head": r"unsigned_varint::decode::usize$", "assign": "remaining",
+    "multistream_select::protocol::Message::decode": {"head": r"unsigned_varint::decode::usize$", "reassign_arg0": True,
         "why": "`ls` response parser: every iteration re-slices `remaining = &tail[len..]` with len >= 1, and stops at MAX_PROTOCOLS"},
     "multistream_select::dialer_select::WebRtcDialerState::register_response": {"head": r"unsigned_varint::decode::usize$", "step": r"Bytes::split_to$|Buf>?::advance$",
         "why": "each message consumes its length prefix (advance) and payload (split_to)"},
